@@ -1209,6 +1209,8 @@ class Compiler:
         old_in_function = self._in_function
         old_free_vars = self._free_vars
         old_cell_vars = self._cell_vars
+        old_source_map = self.source_map
+        old_loc = self._current_loc
 
         # Push current locals to outer scope stack (for closure resolution)
         if self._in_function:
@@ -1217,6 +1219,8 @@ class Compiler:
         # New state for function
         self.bytecode = []
         self.constants = []
+        self.source_map = {}  # bytecode offsets are per function
+        self._current_loc = None
         # No own `arguments`: in an arrow function the name refers to the
         # arguments object of the enclosing function (captured like a variable)
         self.locals = [p.name for p in node.params]
@@ -1267,6 +1271,7 @@ class Compiler:
             num_locals=len(self.locals),
             free_vars=self._free_vars[:],
             cell_vars=self._cell_vars[:],
+            source_map=self.source_map,
         )
 
         # Pop outer scope if we pushed it
@@ -1281,6 +1286,8 @@ class Compiler:
         self._in_function = old_in_function
         self._free_vars = old_free_vars
         self._cell_vars = old_cell_vars
+        self.source_map = old_source_map
+        self._current_loc = old_loc
 
         return func
 
@@ -1307,6 +1314,8 @@ class Compiler:
         old_in_function = self._in_function
         old_free_vars = self._free_vars
         old_cell_vars = self._cell_vars
+        old_source_map = self.source_map
+        old_loc = self._current_loc
 
         # Push current locals to outer scope stack (for closure resolution)
         if self._in_function:
@@ -1316,6 +1325,8 @@ class Compiler:
         # Locals: params first, then 'arguments' reserved slot
         self.bytecode = []
         self.constants = []
+        self.source_map = {}  # bytecode offsets are per function
+        self._current_loc = None
         self.locals = [p.name for p in params] + ["arguments"]
 
         # For named function expressions, add the function name as a local
@@ -1366,6 +1377,7 @@ class Compiler:
             num_locals=len(self.locals),
             free_vars=self._free_vars[:],
             cell_vars=self._cell_vars[:],
+            source_map=self.source_map,
         )
 
         # Pop outer scope if we pushed it
@@ -1380,6 +1392,8 @@ class Compiler:
         self._in_function = old_in_function
         self._free_vars = old_free_vars
         self._cell_vars = old_cell_vars
+        self.source_map = old_source_map
+        self._current_loc = old_loc
 
         return func
 
